@@ -638,7 +638,7 @@ Example update_rect_nonvacuous :
 Proof. eexists. split; vm_compute; reflexivity. Qed.
 
 (* ------------------------------------------------------------------ convergence (repaired block grid) *)
-(* With notes/fix_C17_2.diff the block of destination pixel X starts at ScaleX(X) whatever rectangle
+(* Since /repo commit d58ea84 the block of destination pixel X starts at ScaleX(X) whatever rectangle
    is being refreshed.  Then the scaled image is a function of the framebuffer alone. *)
 Definition ideal_px (fmt : pixfmt) (src : fb) (W H w' h' X Y : Z) : Z :=
   avg_at fmt src (scaleQ w' W 1) (scaleQ h' H 1) (scaleQ w' W X) (scaleQ h' H Y).
@@ -729,7 +729,7 @@ Proof.
     rewrite !E. reflexivity.
 Qed.
 
-(* record of F17b - the block grid of the code as it is: the same framebuffer gives two different
+(* record of F17b - the block grid before d58ea84: the same framebuffer gives two different
    scaled images, depending on whether it was refreshed as a whole or after the modification *)
 Lemma old_grid_history_dependent :
   exists fmt src src' gfull gpart A B0 B,
